@@ -130,7 +130,7 @@ def r1(db, rep, slots):
                    "return protocol")
     n = 0
     for f in db.fns.values():
-        if not f.id.startswith("boa_engine::"):
+        if not f.id.startswith("boa_engine::") or not (f.mentions("push_frame") or f.mentions("prepare_run")):
             continue
         name = cname(f.id)
         if name in PUSH:
@@ -176,7 +176,7 @@ def r2(db, rep, slots):
     n = 0
     TRUNC = ("Stack::truncate_to_frame", "Stack::split_off_frame", "Stack::truncate", "Vec::truncate")
     for f in db.fns.values():
-        if not f.id.startswith("boa_engine::"):
+        if not f.id.startswith("boa_engine::") or not f.mentions("pop_frame"):
             continue
         name = cname(f.id)
         base = name.split("::{closure")[0]
@@ -265,7 +265,8 @@ def r5(db, rep):
                    "mem::swap(vm.stack, ..) twice; native_active_function set … restored")
     n = 0
     for f in db.fns.values():
-        if not f.id.startswith("boa_engine::"):
+        if not f.id.startswith("boa_engine::") or not (f.mentions("host_call_depth") or f.mentions("swap_realm") or
+                                                      f.mentions("mem::swap") or f.mentions("native_active_function")):
             continue
         name = cname(f.id)
         # host_call_depth
